@@ -75,7 +75,7 @@ class C13(Prop):
             'fstring_start child, on its own start line), tree with error => list non-empty, second call identical. '
             'Non-trivial: tree has an error node/leaf or >=1 issue.')
     fuzz = True       # thorough/quick runs add an atheris sub-tier with this check as the in-target oracle
-    budgets = {'quick': 24000, 'thorough': 640000}
+    budgets = {'quick': 40000, 'thorough': 800000}
 
     def strategy(self, tier):
         kinds = ('repo',) if tier == 'quick' else ('repo', 'stdlib3.12')
